@@ -166,14 +166,27 @@ def run_driver(req_path, out_path, profile):
     return p.returncode, p.stderr
 
 
+UNMODELLED_SKIPPED = [0]
+
+
 def diff_replies(req_path, real_path, model_path, limit=20):
     mism = []
     n = 0
+    skip_session = False
     with open(req_path) as fq, open(real_path) as fr, open(model_path) as fm:
         for i, (q, r, m) in enumerate(zip_strict(fq, fr, fm), 1):
             n += 1
             if q.startswith("@"):
                 continue      # oracle-only request (not executed by the model)
+            if q.startswith("new ") or q.startswith("load "):
+                skip_session = False
+            if "UNMODELLED" in m:
+                # the model does not cover this input (non-ASCII text under a table-backed code
+                # page): the rest of the session is decided by the oracle on the real code only
+                skip_session = True
+            if skip_session:
+                UNMODELLED_SKIPPED[0] += 1
+                continue
             if r != m:
                 if len(mism) < limit:
                     mism.append({"line": i, "request": q.rstrip("\n"), "real": r.rstrip("\n"),
@@ -414,6 +427,7 @@ def check(prop, tier):
             "exhaustive_parts": gen_stats.get("exhaustive_parts", []),
             "oracle": oracle_stats,
             "model_vs_real_disagreements": len(mismatches),
+            "requests_outside_the_model_oracle_only": UNMODELLED_SKIPPED[0],
             "oracle_failures_on_real_code": len(oracle_fail),
             "known_findings_hit": [k["id"] for k in known_hits],
             "exhaustive": bool(cfg.get("exhaustive", False)),
